@@ -9,7 +9,7 @@ MOS = [None, "meet", "slice"]
 BOUNDS = {
     "quick": "exhaustive over 10 align values x {absent, meet, slice} + preserveAspectRatio absent; element x,y,width,height, viewBox x,y,w,h, ppi, "
              "caller width/height all symbolic (sizes > 0, |values| <= 1e6); size supplied by: plain attributes, units (px,in,pt,pc), percentages of caller size, "
-             "caller width/height only, default from viewBox; API routes: Viewbox.viewbox_transform, Viewbox(...).transform(elem), SVG.parse (root and one rect child)",
+             "caller width/height only (both, or exactly one of them with the other falling back to the viewBox), default from viewBox; API routes: Viewbox.viewbox_transform, Viewbox(...).transform(elem), SVG.parse (root and one rect child)",
     "thorough": "as quick plus nested svg (depth 2) with its own viewBox for every align/meetOrSlice pair and mm/cm units with a 1e-6 band",
 }
 OUTSIDE = ["12-decimal formatting of the transform string (numbers cross the string as tags)", "IEEE rounding"]
@@ -163,6 +163,15 @@ def h_parse(ctx, align, mos, supply, unit="", reify=True):
         cw, ch = ctx.reals("cw ch", 1e-3, V)
         kw["width"], kw["height"] = cw, ch
         oex, oey, oew, oeh = 0, 0, cw, ch        # width/height default to 100% of the caller's size
+    elif supply == "caller_w":
+        # only the width is passed: the height falls back to the viewBox height
+        cw = ctx.real("cw", 1e-3, V)
+        kw["width"] = cw
+        oex, oey, oew, oeh = 0, 0, cw, vh
+    elif supply == "caller_h":
+        ch = ctx.real("ch", 1e-3, V)
+        kw["height"] = ch
+        oex, oey, oew, oeh = 0, 0, vw, ch
     elif supply == "caller_len":
         cw, ch = ctx.reals("cw ch", 1e-3, V)
         kw["width"], kw["height"] = "%sin" % cw, "%spt" % ch
@@ -257,7 +266,7 @@ def harnesses(tier):
     full = combos if tier == "thorough" else some
     for a, m in full:
         tag = "%s_%s" % (a, m)
-        for supply in ("percent", "caller", "caller_len", "default"):
+        for supply in ("percent", "caller", "caller_w", "caller_h", "caller_len", "default"):
             hs.append({"name": "parse_%s/%s" % (supply, tag), "fn": "h_parse", "params": {"align": a, "mos": m, "supply": supply}})
         for unit in ("px", "pt", "pc", "in"):
             hs.append({"name": "parse_unit_%s/%s" % (unit, tag), "fn": "h_parse", "params": {"align": a, "mos": m, "supply": "attr", "unit": unit}})
